@@ -297,10 +297,10 @@ FACETS = [
           rule="DES and AES-128 (+3DES, AES-256, Serpent thorough): EVERY length 0..3B+1 x {ECB,CBC} x {pkcs7,X9.23,bit,zero,(no padding: whole blocks),default} "
                "+ CTR with 4 counter halves (random, 0, all-ones, 2^k-2; bytes and DefaultCounter object) + CTS_ECB/CTS_CBC for |M| >= B; "
                "Threefish-256/512/1024: residues {0,1,B/2,B-1} x 0..3 blocks"),
-    Facet("random", check_mode, strategy=mode_strategy, budget={"quick": 1500, "thorough": 60000}, shards={"quick": 16, "thorough": 32},
+    Facet("random", check_mode, strategy=mode_strategy, budget={"quick": 3000, "thorough": 60000}, shards={"quick": 16, "thorough": 32},
           nontrivial=nontriv, classify=classify,
           rule="all 9 cipher configurations, all modes and paddings, lengths k*B + boundary residue, counter halves near wrap-around"),
-    Facet("call-histories", check_history, strategy=history_strategy, budget={"quick": 500, "thorough": 15000},
+    Facet("call-histories", check_history, strategy=history_strategy, budget={"quick": 1200, "thorough": 15000},
           shards={"quick": 16, "thorough": 32}, nontrivial=lambda c: len(c["ops"]) >= 2,
           classify=lambda c: (c["mode"], "".join({"enc": "e", "dec": "d", "dec-last": "l", "setup": "s"}[k] for k, _ in c["ops"])),
           rule="2..4 operations on ONE mode object: enc (== a fresh object's), dec of the ciphertext just produced, dec of a ciphertext that a fresh object produced for a different message, and (CTR) re-configuring the counter with DefaultCounter.setup()"),
